@@ -75,6 +75,7 @@ PROPS = {
                                                                           "PipelineRuntimeStatus.record_finish"}, t)],
                 extra=lambda prog, S, tier, seed: [__import__("extras").run_child("sim_recount", REPO, seed, 60 if tier == "quick" else 600),
                                                     __import__("extras").run_child("sim_uncontended", REPO, seed, 80 if tier == "quick" else 800)]),
+    "C14": dict(level="other", extra=lambda prog, S, tier, seed: [__import__("extras").run_child("csv_roundtrip", REPO, seed, 150 if tier == "quick" else 3000)]),
     "C16": dict(scans=_scan_suspend),
     "C17": dict(scans=_scan_suspend),
     "C18": dict(scans=_scan_suspend, native_budget=25),
@@ -246,7 +247,10 @@ def run(pid: str, tier: str, replay: str | None, t0: float) -> int:
         witness = None
         try:
             import native
-            witness = native.search(pid, items, REPO, seed, budget_s=60 if tier == "quick" else 300)
+            if pid in native.PROP_SCENARIOS:
+                witness = native.search(pid, items, REPO, seed, budget_s=60 if tier == "quick" else 300)
+            else:
+                witness = {"found": False, "note": "no monitor scenarios for this property; witnesses come from its bounded parts"}
         except Exception as ex:  # pragma: no cover
             witness = {"found": False, "error": repr(ex)}
         found = bool(witness and witness.get("found")) or any(e.get("witness") for e in bad_extra) or bool(bad_scans)
